@@ -471,7 +471,10 @@ func (c *Client) TwoPhaseCommit(ctx context.Context, primary []byte, mutations [
 			return err
 		}
 	}
-	if err := c.commitRegion(ctx, primaryID, collectKeys(primaryMutations), startVersion, commitVersion); err != nil {
+	// The primary key decides the transaction. The store commits the keys of a request in order and
+	// stops at the first error, so the primary goes first: when its commit is refused (rolled back by
+	// a resolver, min-commit-ts pushed) no other key of its region may have been committed before it.
+	if err := c.commitRegion(ctx, primaryID, primaryFirst(collectKeys(primaryMutations), primary), startVersion, commitVersion); err != nil {
 		return err
 	}
 	for regionID, muts := range grouped {
@@ -942,6 +945,18 @@ func collectKeys(muts []*pb.Mutation) [][]byte {
 		out = append(out, append([]byte(nil), mut.GetKey()...))
 	}
 	return out
+}
+
+// primaryFirst moves the primary key to the front of keys, keeping the order of the others.
+func primaryFirst(keys [][]byte, primary []byte) [][]byte {
+	for i, key := range keys {
+		if bytesCompare(key, primary) == 0 {
+			copy(keys[1:i+1], keys[:i])
+			keys[0] = key
+			break
+		}
+	}
+	return keys
 }
 
 func mutationHasPrimary(muts []*pb.Mutation, primary []byte) bool {
